@@ -51,6 +51,22 @@ Theorem C17_obstacles_and_failures_leave_no_trace :
                                Forall (fun it => exists j, (exists o, In o h /\ op_targets cfg U o j q) /\ contribution cfg U j it) l.
 Proof. intros cfg U h st st' rs Hc Hh H. exact (run_refines_with_obstacles cfg U Hc h st st' rs Hh H). Qed.
 
+(* the retry itself: when a type is exported to a path for the first time in the process — directly, or after any number of
+   failed attempts with obstacles placed and removed (which record nothing: above) — the file holds exactly its export text
+   and the registry exactly its name; so the retried export and the export that never failed leave the same file *)
+Theorem C17_retry_writes_what_the_first_attempt_would_have :
+  forall cfg U i path p st1 st1' st2 st2',
+    target_of cfg path = Some p ->
+    reg_get (s_reg st1) p = None -> export_to cfg U st1 i path = (st1', Ok tt) ->
+    reg_get (s_reg st2) p = None -> export_to cfg U st2 i path = (st2', Ok tt) ->
+    fs_get (s_fs st1') p = fs_get (s_fs st2') p /\ reg_get (s_reg st1') p = reg_get (s_reg st2') p.
+Proof.
+  intros cfg U i path p st1 st1' st2 st2' Ht R1 H1 R2 H2.
+  destruct (export_to_first_touch cfg U st1 i path p st1' Ht R1 H1) as (b1 & E1 & F1 & G1).
+  destruct (export_to_first_touch cfg U st2 i path p st2' Ht R2 H2) as (b2 & E2 & F2 & G2).
+  rewrite E1 in E2. inversion E2; subst b2. rewrite F1, F2, G1, G2. split; reflexivity.
+Qed.
+
 (* the four obstacles are errors, never panics, with the state as it was: *)
 (* .. the type is not exportable (every entry point) *)
 Theorem C17_not_exportable_is_an_error :
@@ -110,6 +126,7 @@ Print Assumptions C17_failed_export_is_not_recorded.
 Print Assumptions C17_failed_export_all_touches_nothing_else.
 Print Assumptions C17_failed_export_contributes_nothing.
 Print Assumptions C17_obstacles_and_failures_leave_no_trace.
+Print Assumptions C17_retry_writes_what_the_first_attempt_would_have.
 Print Assumptions C17_not_exportable_is_an_error.
 Print Assumptions C17_above_root_is_an_error.
 Print Assumptions C17_target_is_a_directory_is_an_error.
